@@ -144,7 +144,10 @@ static void run_cba(const char *line) {
     v_real.tv_sec = t[7]; v_real.tv_nsec = t[8]; v_mono.tv_sec = t[9]; v_mono.tv_nsec = t[10];
     clockbound_now_result res; memset(&res, 0, sizeof res);
     vclock_on = 1;
+    /* a stale errno from an earlier, unrelated call must not show in the error a call reports */
+    { static const int stale[4] = { EINTR, 0, ENOENT, EAGAIN }; static unsigned ncall = 0; errno = stale[ncall++ % 4]; }
     const clockbound_err *e = clockbound_now(cba_ctx, &res);
+    int errno1 = e ? e->sys_errno : 0;
     /* the same call again: same segment content (same generation), same clock readings */
     v_real.tv_sec = t[7]; v_real.tv_nsec = t[8]; v_mono.tv_sec = t[9]; v_mono.tv_nsec = t[10];
     clockbound_now_result res2; memset(&res2, 0, sizeof res2);
@@ -164,7 +167,8 @@ static void run_cba(const char *line) {
         printf("]\n");
         return;
     }
-    if (e) printf("err %s\n", kind_name(e->kind));
+    if (e && errno1 != 0 && k1 != CLOCKBOUND_ERR_SYSCALL) printf("err %s with-errno-%d-although-no-system-call-failed\n", kind_name(k1), errno1);
+    else if (e) printf("err %s\n", kind_name(e->kind));
     else printf("ok %lld %lld %lld %lld %d\n", (long long)res.earliest.tv_sec, (long long)res.earliest.tv_nsec,
                 (long long)res.latest.tv_sec, (long long)res.latest.tv_nsec, (int)res.clock_status);
 }
